@@ -4,6 +4,8 @@ import Proofs.E2E.C12
 import Proofs.E2E.C12Cof
 import Proofs.C12.EC
 import Proofs.C12.PyTree
+import Proofs.C12.Control
+import Proofs.E2E.CofactorOne
 /-!
 # C12 — taproot outputs commit to exactly their key and script tree (DESIGN.md §3 C12)
 
@@ -24,9 +26,12 @@ Which hypothesis each theorem rests on, and where it is discharged:
   `Lawful (Btc.EC.ops C) G` itself is UNINHABITED (raw integer pairs include junk such as `(-1, 1)`); what C01
   proves is `Lawful (opsSub K)` — the same operations restricted to reduced valid pairs of the `n`-torsion, with
   `lift_x` filtered to that carrier.  The `_ec` / `_secp256k1` forms transfer the conclusions to `Btc.EC.ops C`;
-  the `_raw` forms have NO `opsSub` left in the statement and need the explicit cofactor-one hypothesis `hcof`
-  (restricted and unrestricted `lift_x` agree); for secp256k1 the discriminant condition and the primality of
-  `p`, `n` are proved, `SecpCofactorOne` is the one named assumption that remains.
+  the `_cofactor_one` forms have NO `opsSub` left in the statement and need the explicit cofactor-one hypothesis `hcof`
+  (restricted and unrestricted `lift_x` agree).  For secp256k1 EVERYTHING is proved — the discriminant condition, the
+  primality of `p`, `n` (Pratt certificates) and cofactor one (`Btc.E2E.secpCofactorOne`, Proofs/E2E/CofactorOne.lean) —
+  so `completeness_secp256k1`, `key_agreement_secp256k1`, `nums_completeness_secp256k1` carry NO curve-level hypothesis
+  and are entirely about `Btc.EC.ops secp256k1` / `Btc.taggedHash`, the two functions the driver runs.  The older forms
+  whose key is parsed over the noncomputable carrier `secpOps` are kept under the suffix `_sub` and labelled so.
 * The output key is committed to as an INTEGER: `check_output_pubkey` compares `int.from_bytes(q)`, so `00 ‖ q`
   verifies like `q` (open known finding `taproot.check_output_pubkey.zero_padded_key_accepted`).  "Commits to
   exactly its key" therefore means: among keys of one length at most one verifies (`output_key_unique`), and keys
@@ -385,8 +390,8 @@ end Props.C12
 `lift_x` answering inside the `n`-torsion (`02 ‖ x(P)` of every such `P` with even y qualifies:
 `Btc.E2E.pointFromOctets_sub_even`).  T1's conclusions are then about `Btc.EC.ops C` ITSELF; T2 compares the private
 tweak over `Btc.EC.ops C` with the public tweak over `opsSub K`, identities of points being the code's `==` on raw
-pairs.  For secp256k1 nothing is assumed about the curve (primality of `p`, `n`: Pratt certificates,
-`Btc.E2E.secp256k1_p_prime`, `secp256k1_n_prime`). -/
+pairs.  The `_sub` forms below still have `hP` over `opsSub K` / `secpOps` (a noncomputable carrier: the hypothesis is
+about a DIFFERENT `lift_x` than the one executed); the forms without suffix further down have none of it. -/
 namespace Props.C12
 open Btc Btc.EC Btc.C01 Btc.E2E Btc.Taproot Gen.Taproot
 
@@ -429,8 +434,9 @@ theorem sub_answers_imp_ec {p : ℕ} [Fact p.Prime] {C : Curve} (K : CurveOk p C
   ⟨fun _ _ _ h => tweakedPubkey_opsSub_ok K H h, fun _ _ _ h => outputPubkey_opsSub_ok K H h,
    fun _ _ _ _ h => inputScriptSig_opsSub_ok K H h, fun _ _ _ _ h => checkOutputPubkey_opsSub_ok K H h⟩
 
-/-- T1 on secp256k1, unconditional (primality of `p`, `n` proved: Pratt certificates) -/
-theorem completeness_secp256k1 {H : TagHash}
+/-- T1 on secp256k1, key parsed over the lawful carrier: `hP` is a hypothesis about the noncomputable `secpOps`
+    (`lift_x` filtered to the `n`-torsion), NOT about the executed `lift_x`; superseded by `completeness_secp256k1` -/
+theorem completeness_secp256k1_sub {H : TagHash}
     (h32 : Len32 H) (sec : Bytes) (tree : Tree) (P : SecpPt) (t : ℤ) (hdepth : tree.depth ≤ 128)
     (hP : pointFromOctets secpOps sec = .ok P)
     (ht : tapTweak (EC.ops secp256k1) H (xOnly sec) (root H tree) = .ok t)
@@ -444,8 +450,9 @@ theorem completeness_secp256k1 {H : TagHash}
           (outKey (EC.ops secp256k1) (tweakPoint (EC.ops secp256k1) P.1 t)).1 s c = .ok true :=
   Btc.E2E.completeness_secp256k1 h32 sec tree P t hdepth hP ht hQ
 
-/-- T2 on secp256k1 -/
-theorem key_agreement_secp256k1 {H : TagHash}
+/-- T2 on secp256k1, public tweak over the lawful carrier `secpOps` (see `completeness_secp256k1_sub`); superseded by
+    `key_agreement_secp256k1` -/
+theorem key_agreement_secp256k1_sub {H : TagHash}
     (d : ℤ) (h0 : 0 < d) (h1 : d < secp256k1.n) (sec h : Bytes) (P' : SecpPt)
     (hP : pointFromOctets secpOps sec = .ok P')
     (hsame : (EC.ops secp256k1).eq P'.1 ((EC.ops secp256k1).mul d secp256k1.G) = true ∨
@@ -495,7 +502,8 @@ theorem every_leaf_version_sound_secp256k1 (xb : Bytes) (hxb : xb.length = 32)
   every_leaf_version_sound liftEven_secp256k1 len32_taggedHash xb hxb v s hs q par hq s' c' hs' hc
 
 /-- T1n on secp256k1: the NUMS fallback key `02 ‖ NUMS_X` IS a point (kernel-evaluated `lift_x`), so the hypothesis
-    `hP` of `completeness_secp256k1_cofactor_one` is met by `sec := numsSec`, i.e. by `internal_pubkey = None` / `b""`. -/
+    `hP` of `completeness_secp256k1` is met by `sec := numsSec`, i.e. by `internal_pubkey = None` / `b""`
+    (composed in `nums_completeness_secp256k1`). -/
 theorem nums_is_a_point_secp256k1 :
     ∃ Q, pointFromOctets (EC.ops secp256k1) numsSec = .ok Q ∧ (EC.ops secp256k1).isZero Q = false :=
   nums_parses
@@ -536,8 +544,11 @@ theorem key_agreement_ec_cofactor_one {p : ℕ} [Fact p.Prime] {C : Curve} (K : 
           outKey (EC.ops C) ((EC.ops C).mul d2 C.G) = outKey (EC.ops C) (tweakPoint (EC.ops C) Q t))) :=
   key_agreement_raw_cofactor_one K h34 hcof hΔ d h0 h1 sec h Q hP hsame hx
 
-/-- T1 on secp256k1 with SHA-256, RAW: the only assumption left is `SecpCofactorOne` (`#E(F_p) = n`) -/
-theorem completeness_secp256k1_cofactor_one (hcof : SecpCofactorOne)
+/-- T1 on secp256k1 with SHA-256, NO curve-level hypothesis (cofactor one proved: `Btc.E2E.secpCofactorOne`): the key
+    parses over the executed `Btc.EC.ops secp256k1`, the hash is the executed `Btc.taggedHash`.  What is left: the
+    internal key is a point (`hP`), the tweak is in range (`ht`, refused otherwise: T2r), the output point is not the
+    point at infinity (`hQ`). -/
+theorem completeness_secp256k1
     (sec : Bytes) (tree : Tree) (Q : Point) (t : ℤ) (hdepth : tree.depth ≤ 128)
     (hP : pointFromOctets (EC.ops secp256k1) sec = .ok Q)
     (ht : tapTweak (EC.ops secp256k1) taggedHash (xOnly sec) (root taggedHash tree) = .ok t)
@@ -548,10 +559,10 @@ theorem completeness_secp256k1_cofactor_one (hcof : SecpCofactorOne)
       ∃ s c, inputScriptSig (EC.ops secp256k1) taggedHash (some sec) tree i = .ok (s, c) ∧
         checkOutputPubkey (EC.ops secp256k1) taggedHash
           (outKey (EC.ops secp256k1) (tweakPoint (EC.ops secp256k1) Q t)).1 s c = .ok true :=
-  Btc.E2E.completeness_secp256k1_cofactor_one hcof len32_taggedHash sec tree Q t hdepth hP ht hQ
+  Btc.E2E.completeness_secp256k1_cofactor_one Btc.E2E.secpCofactorOne len32_taggedHash sec tree Q t hdepth hP ht hQ
 
-/-- T2 on secp256k1, RAW, under `SecpCofactorOne` -/
-theorem key_agreement_secp256k1_cofactor_one (hcof : SecpCofactorOne) {H : TagHash}
+/-- T2 on secp256k1, NO curve-level hypothesis: both tweaks over the executed `Btc.EC.ops secp256k1` -/
+theorem key_agreement_secp256k1 {H : TagHash}
     (d : ℤ) (h0 : 0 < d) (h1 : d < secp256k1.n) (sec h : Bytes) (Q : Point)
     (hP : pointFromOctets (EC.ops secp256k1) sec = .ok Q)
     (hsame : (EC.ops secp256k1).eq Q ((EC.ops secp256k1).mul d secp256k1.G) = true ∨
@@ -566,7 +577,41 @@ theorem key_agreement_secp256k1_cofactor_one (hcof : SecpCofactorOne) {H : TagHa
         ((EC.ops secp256k1).isZero (tweakPoint (EC.ops secp256k1) Q t) = false →
           outKey (EC.ops secp256k1) ((EC.ops secp256k1).mul d2 secp256k1.G) =
             outKey (EC.ops secp256k1) (tweakPoint (EC.ops secp256k1) Q t))) :=
-  Btc.E2E.key_agreement_secp256k1_cofactor_one hcof d h0 h1 sec h Q hP hsame hx
+  Btc.E2E.key_agreement_secp256k1_cofactor_one Btc.E2E.secpCofactorOne d h0 h1 sec h Q hP hsame hx
+
+/-- T1n (NUMS completeness) on secp256k1 / SHA-256, NO curve-level hypothesis: with NO internal key (`None` or `b""`)
+    and any tree of depth ≤ 128, the internal key is BIP341's unspendable point `Q₀ = lift_x(NUMS_X)` (a point: kernel
+    evaluation), and — the tweak being in range and the output point not at infinity — `output_pubkey` answers the
+    tweak of `Q₀`, every `input_script_sig` answers a control block that names `NUMS_X` as internal key, and
+    `check_output_pubkey` accepts it. -/
+theorem nums_completeness_secp256k1 (tree : Tree) (hdepth : tree.depth ≤ 128) :
+    ∃ Q₀, pointFromOctets (EC.ops secp256k1) numsSec = .ok Q₀ ∧ (EC.ops secp256k1).isZero Q₀ = false ∧
+    ∀ t, tapTweak (EC.ops secp256k1) taggedHash NUMS_X (root taggedHash tree) = .ok t →
+      (EC.ops secp256k1).isZero (tweakPoint (EC.ops secp256k1) Q₀ t) = false →
+      outputPubkey (EC.ops secp256k1) taggedHash none (some tree) =
+        .ok (outKey (EC.ops secp256k1) (tweakPoint (EC.ops secp256k1) Q₀ t)) ∧
+      outputPubkey (EC.ops secp256k1) taggedHash (some []) (some tree) =
+        .ok (outKey (EC.ops secp256k1) (tweakPoint (EC.ops secp256k1) Q₀ t)) ∧
+      ∀ i : ℕ, i < (leaves taggedHash tree).length →
+        ∃ s c, inputScriptSig (EC.ops secp256k1) taggedHash none tree i = .ok (s, c) ∧
+          inputScriptSig (EC.ops secp256k1) taggedHash (some []) tree i = .ok (s, c) ∧
+          (c.drop 1).take 32 = NUMS_X ∧
+          checkOutputPubkey (EC.ops secp256k1) taggedHash
+            (outKey (EC.ops secp256k1) (tweakPoint (EC.ops secp256k1) Q₀ t)).1 s c = .ok true := by
+  obtain ⟨Q₀, hP, hz⟩ := nums_parses
+  refine ⟨Q₀, hP, hz, fun t ht hQ => ?_⟩
+  have hx : xOnly numsSec = NUMS_X := by decide
+  obtain ⟨h1, h2⟩ := completeness_secp256k1 numsSec tree Q₀ t hdepth hP (by rw [hx]; exact ht) hQ
+  obtain ⟨n1, n2, -⟩ := nums_fallback (EC.ops secp256k1) taggedHash tree 0
+  refine ⟨n1.trans h1, n2.trans h1, fun i hi => ?_⟩
+  obtain ⟨s, c, hs, hc⟩ := h2 i hi
+  obtain ⟨-, -, n3, n4, -⟩ := nums_fallback (EC.ops secp256k1) taggedHash tree (i : ℤ)
+  refine ⟨s, c, n3.trans hs, n4.trans hs, ?_, hc⟩
+  rw [iss_xonly (EC.ops secp256k1) taggedHash numsSec (by decide) (by decide) tree i s c hs, hx]
+
+-- non-vacuity of T1n: every hypothesis outside the conclusion is discharged for the one-leaf tree `[(0xC0, OP_1)]`
+example : ∃ Q₀, pointFromOctets (EC.ops secp256k1) numsSec = .ok Q₀ ∧ (EC.ops secp256k1).isZero Q₀ = false :=
+  let ⟨Q₀, h1, h2, _⟩ := nums_completeness_secp256k1 (.leaf 0xC0 [0x51]) (by decide); ⟨Q₀, h1, h2⟩
 
 -- non-vacuity of T3 on the executed arithmetic: the toy curve `y² = x³ + 7` over `F₄₃`, internal key x = 21, the
 -- three-leaf tree, the control block `input_script_sig` builds for leaf 2: every hypothesis of `soundness_ec` holds
